@@ -106,6 +106,7 @@ type GenesisCfg struct {
 	VotingSecs     int64   `json:"voting_secs"`     // gov voting period
 	UserDelegs     [][3]int64 `json:"user_delegs"`  // genesis delegations: [user index, validator index, amount loya]
 	NodeVariant    int     `json:"node_variant"`    // local node configuration variant (must not matter; C01 varies it per replica)
+	BootVotes      [][]VoteSpec `json:"boot_votes,omitempty"` // vote behaviour in the two bootstrap blocks (default: all honest)
 }
 
 func DefaultGenesisCfg() GenesisCfg {
@@ -147,6 +148,7 @@ type extVote struct {
 	flag   cmtproto.BlockIDFlag
 	ext    []byte
 	extSig []byte
+	sent   []byte
 }
 
 type Chain struct {
@@ -168,13 +170,27 @@ type Chain struct {
 	RemovedVoterDrops int
 	seqCache   map[string]uint64
 	HonestExt  func(c *Chain, v *Validator, height int64) []byte // default extension builder
+	// ProposalProbe, if set, is called between PrepareProposal and ProcessProposal of every height > 1 with the
+	// honest proposal and a function that asks ProcessProposal about a candidate proposal on the same state
+	ProposalProbe func(h int64, txs [][]byte, try func([][]byte) (bool, *HaltInfo))
 }
 
 // VoteSpec says how one validator behaves in the precommit of a block.
 type VoteSpec struct {
 	Val    int    `json:"val"`    // validator index
-	Mode   int    `json:"mode"`   // 0 honest, 1 absent, 2 nil vote, 3 custom payload (Payload), 4 honest via the real ExtendVoteHandler
+	Mode   int    `json:"mode"`   // 0 honest, 1 absent, 2 nil vote, 3 custom payload (Payload), 4 honest via the real ExtendVoteHandler, 5 honest extension mutated by (Mut,Arg)
 	Payload []byte `json:"payload,omitempty"`
+	Mut    int    `json:"mut,omitempty"` // mutation kind for mode 5 (see MutateExtension)
+	Arg    int    `json:"arg,omitempty"` // mutation argument for mode 5
+}
+
+// CommitVote is what the engine recorded for one validator in the commit of a height.
+type CommitVote struct {
+	Val   *Validator
+	Power int64
+	Flag  cmtproto.BlockIDFlag
+	Ext   []byte
+	Sent  []byte // the extension the validator sent (even if peers rejected it)
 }
 
 func (c *Chain) Close() {
@@ -504,6 +520,20 @@ func (c *Chain) NextBlock(in BlockInput) *BlockResult {
 		}
 		res.Injected = txs[0]
 	}
+	if c.ProposalProbe != nil && h > 1 {
+		try := func(cand [][]byte) (accepted bool, hi *HaltInfo) {
+			var pr *abci.ResponseProcessProposal
+			hi = guard("ProcessProposal", func() (err error) {
+				pr, err = c.App.ProcessProposal(&abci.RequestProcessProposal{Txs: cand, ProposedLastCommit: commit, Height: h, Time: t, ProposerAddress: proposer, Misbehavior: in.Misbehavior, Hash: []byte("blockhash-" + fmt.Sprint(h))})
+				return err
+			})
+			if hi != nil {
+				return false, hi
+			}
+			return pr.Status == abci.ResponseProcessProposal_ACCEPT, nil
+		}
+		c.ProposalProbe(h, txs, try)
+	}
 	if in.MutateProposal != nil {
 		txs = in.MutateProposal(txs)
 	}
@@ -545,6 +575,8 @@ func (c *Chain) NextBlock(in BlockInput) *BlockResult {
 			var ext []byte
 			if mode == 3 {
 				ext = vs.Payload
+			} else if mode == 5 {
+				ext = c.MutateExtension(c.MimicExtension(sv.v, h), sv.v, vs.Mut, vs.Arg)
 			} else if mode == 4 {
 				var r *abci.ResponseExtendVote
 				if hi := guard("ExtendVote", func() (err error) {
@@ -566,6 +598,7 @@ func (c *Chain) NextBlock(in BlockInput) *BlockResult {
 			}); hi != nil {
 				return fail(hi)
 			}
+			ev.sent = ext
 			if vr.Status == abci.ResponseVerifyVoteExtension_ACCEPT {
 				ev.flag = cmtproto.BlockIDFlagCommit
 				ev.ext = ext
@@ -729,3 +762,12 @@ func (c *Chain) signTxWith(signer *Actor, accNum, seq, gas uint64, fee int64, ms
 
 var _ = proto.Marshal
 var _ = cryptocodec.FromCmtPubKeyInterface
+
+// LastCommit returns the votes recorded for the last committed height (the commit the next block will carry).
+func (c *Chain) LastCommit() []CommitVote {
+	out := make([]CommitVote, 0, len(c.prevVotes))
+	for _, v := range c.prevVotes {
+		out = append(out, CommitVote{Val: v.val, Power: v.power, Flag: v.flag, Ext: v.ext, Sent: v.sent})
+	}
+	return out
+}
